@@ -216,8 +216,23 @@ def run(ctx):
     ctx.ob('C18.b', 'cirq.study.result._pack_digits:flag-matches-encoding', ok, '' if ok else '_pack_digits returns binary=True for a non-bit-packed payload or vice versa', rm.rel, pk.lineno)
     fj = rd.methods.get('_from_json_dict_')
     fpr = rd.methods.get('_from_packed_records')
-    src = ast.unparse(fj) + ast.unparse(fpr) if fj is not None and fpr is not None else ''
-    ok = "kwargs['records']" in src and '_unpack_digits(**val)' in src and "'measurements'" in src
+    ok = fj is not None and fpr is not None
+    if ok:
+        both = [fj, fpr]
+        # every unpack call spreads the stored record (the value variable of a comprehension over .items()) into keyword arguments
+        ups = [c for f in both for c in ast.walk(f) if isinstance(c, ast.Call) and call_name(c) == '_unpack_digits']
+        spread_ok = bool(ups)
+        for f in both:
+            for dc in [d for d in ast.walk(f) if isinstance(d, ast.DictComp)]:
+                tgt = dc.generators[0].target
+                for c in ast.walk(dc.value):
+                    if isinstance(c, ast.Call) and call_name(c) == '_unpack_digits':
+                        vname = tgt.elts[1].id if isinstance(tgt, ast.Tuple) and len(tgt.elts) == 2 and isinstance(tgt.elts[1], ast.Name) else None
+                        if not (len(c.keywords) == 1 and c.keywords[0].arg is None and isinstance(c.keywords[0].value, ast.Name) and c.keywords[0].value.id == vname and not c.args):
+                            spread_ok = False
+        reads_records = any(isinstance(n, ast.Subscript) and isinstance(n.slice, ast.Constant) and n.slice.value == 'records' for n in ast.walk(fj)) or 'records' in func_params(fj)
+        legacy = any(isinstance(n, ast.Compare) and isinstance(n.left, ast.Constant) and n.left.value == 'measurements' and isinstance(n.ops[0], ast.In) for n in ast.walk(fj))
+        ok = spread_ok and reads_records and legacy
     ctx.ob('C18.b', f'{rd.qual}._from_json_dict_', ok, '' if ok else 'the reader no longer unpacks `records` (and legacy `measurements`) through _unpack_digits', rm.rel, getattr(fj, 'lineno', 1))
     ok = jd is not None and any(isinstance(d, ast.Dict) and {k.value for k in d.keys if isinstance(k, ast.Constant)} == {'params', 'records'} for d in ast.walk(jd))
     ctx.ob('C18.b', f'{rd.qual}._json_dict_:top-level', ok, '' if ok else 'top-level JSON keys are no longer params + records', rm.rel, jd.lineno)
@@ -491,14 +506,17 @@ def _axis_rule(ctx, repo, rm, rd):
         return NotImplemented
 
     def s4():
-        outs = [st for st in ast.walk(fn4) if isinstance(st, ast.Assign) and isinstance(st.targets[0], ast.Name) and st.targets[0].id == 'out']
+        # the per-measurement sample array: the local allocated with np.zeros inside the loop over the measurement operations
+        outs = [st for st in ast.walk(fn4) if isinstance(st, ast.Assign) and isinstance(st.targets[0], ast.Name)
+                and isinstance(st.value, ast.Call) and call_name(st.value) in ('zeros', 'empty')]
         if not outs:
-            raise Unknown('per-measurement sample array `out` vanished')
+            raise Unknown('per-measurement sample array vanished')
         it = AxisInterp({'repetitions': Dim('R')}, hook=qhook)
         out = as_arr(it.ev(outs[0].value))
         if out.labels != ('R', 'Q'):
             return False, f'per-measurement samples are allocated as {out.labels}, expected (R, Q)'
-        comps4 = [c for c in ast.walk(fn4) if isinstance(c, ast.DictComp) and 'results' in ast.unparse(c.generators[0].iter)]
+        comps4 = [c for c in ast.walk(fn4) if isinstance(c, ast.DictComp) and isinstance(c.generators[0].iter, ast.Call) and call_name(c.generators[0].iter) == 'items'
+                  and isinstance(c.generators[0].target, ast.Tuple)]
         if not comps4:
             raise Unknown('stacking of repeated-key samples vanished')
         c = comps4[0]
